@@ -142,11 +142,128 @@ def _inline_site(F, bi, H):
                                        "line": t.get("line"), "exp": t.get("exp", False)}],
                             "term": {"k": "goto", "t": t["target"], "line": t.get("line"), "exp": t.get("exp", False)},
                             "inlined_from": owner})
+    _thread_try(F, t, off, boff, nH)
     # parameter passing + jump
     blk = F["blocks"][bi]
     for k, a in enumerate(t["args"]):
         blk["stmts"].append({"k": "assign", "place": {"l": off + 1 + k, "p": []}, "rv": {"k": "use", "op": a}, "line": t.get("line"), "exp": t.get("exp", False)})
     blk["term"] = {"k": "goto", "t": boff, "line": t.get("line"), "exp": t.get("exp", False), "inlined_call": owner}
+
+
+def _agg(path, variant, vidx, ops):
+    return {"k": "agg", "ak": "adt", "path": path, "variant": variant, "vidx": vidx, "fields": ["0"] if ops else [], "ops": ops}
+
+
+def _thread_try(F, t, off, boff, nH):
+    """`helper(..)?` — keep the helper's return paths apart.  After splicing, every `return` of the helper jumps to one continuation block where the
+    caller evaluates `Try::branch(result)` and switches on it; an analysis that is not path-sensitive would then let the helper's `return Err(..)`
+    flow into the caller's success arm.  Where a return site visibly builds `Ok(v)` / `Err(e)` / `Some(v)` / `None` (or takes the result of
+    `from_residual`, i.e. an inner `?` failing), it is wired straight to the matching arm of the caller's switch."""
+    tgt = t.get("target")
+    dest = t.get("dest")
+    if tgt is None or dest is None or dest["p"]:
+        return
+    T = F["blocks"][tgt]
+    tt = T["term"]
+    if T["stmts"] or not tt or tt["k"] != "call" or not tt.get("fn") or not tt["fn"]["path"].endswith("Try::branch"):
+        return
+    a0 = tt["args"][0] if tt["args"] else None
+    if not a0 or a0.get("k") != "move" or a0["place"]["l"] != dest["l"] or a0["place"]["p"] or tt.get("target") is None or tt["dest"]["p"]:
+        return
+    bl = tt["dest"]["l"]
+    T2 = F["blocks"][tt["target"]]
+    if len(T2["stmts"]) != 1 or T2["stmts"][0]["rv"].get("k") != "discr" or T2["stmts"][0]["rv"]["place"]["l"] != bl or T2["term"]["k"] != "switch":
+        return
+    arms = {str(v): tg for v, tg in T2["term"]["targets"]}
+    if "0" not in arms or "1" not in arms:
+        return
+    TC, TB = arms["0"], arms["1"]
+    ret = off          # the helper's return slot after renumbering
+    cont = boff + nH   # generic continuation
+    line = t.get("line")
+
+    def new_block(stmts, goto):
+        F["blocks"].append({"cleanup": False, "stmts": [dict(s_, line=line, exp=True) for s_ in stmts], "term": {"k": "goto", "t": goto, "line": line, "exp": True}, "inlined_from": "try-thread"})
+        return len(F["blocks"]) - 1
+
+    def tmp_local(ty="?"):
+        F["locals"].append({"ty": ty, "mut": True})
+        return len(F["locals"]) - 1
+    CF = "std::ops::ControlFlow"
+
+    def succ_of(term):
+        if term["k"] == "goto":
+            return term["t"]
+        if term["k"] == "drop":
+            return term.get("target")
+        return None
+
+    def set_succ(term, v):
+        if term["k"] == "goto":
+            term["t"] = v
+        else:
+            term["target"] = v
+
+    def assigns_ret(blk):
+        return any(s_["k"] == "assign" and s_["place"]["l"] == ret for s_ in blk["stmts"]) or \
+            (blk["term"] and blk["term"]["k"] == "call" and blk["term"].get("dest") and blk["term"]["dest"]["l"] == ret)
+
+    def chain_to_cont(first):
+        """linear blocks (goto / drop, no write of the return slot) from `first` up to the continuation, or None"""
+        chain, cur = [], first
+        while cur != cont:
+            if cur is None or not (boff <= cur < boff + nH) or len(chain) > 8:
+                return None
+            blk = F["blocks"][cur]
+            if not blk["term"] or blk["term"]["k"] not in ("goto", "drop") or assigns_ret(blk):
+                return None
+            chain.append(cur)
+            cur = succ_of(blk["term"])
+        return chain
+
+    def rewire(term, first_succ, stmts, arm):
+        chain = chain_to_cont(first_succ)
+        if chain is None:
+            return False
+        nb = new_block(stmts, arm)
+        nxt = nb
+        for c in reversed(chain):          # private copies of the (effect-free) blocks between the return site and the continuation
+            src = F["blocks"][c]
+            cp = copy.deepcopy(src)
+            set_succ(cp["term"], nxt)
+            F["blocks"].append(cp)
+            nxt = len(F["blocks"]) - 1
+        if term["k"] == "call":
+            term["target"] = nxt
+        else:
+            set_succ(term, nxt)
+        return True
+    for k in range(boff, boff + nH):
+        blk = F["blocks"][k]
+        term = blk["term"]
+        if not term:
+            continue
+        # an inner `?` of the helper failing: `_0 = from_residual(..)` then return
+        if term["k"] == "call" and term.get("fn") and term["fn"]["path"].endswith("FromResidual::from_residual") and term.get("dest") and term["dest"]["l"] == ret and not term["dest"]["p"] \
+                and term.get("target") is not None:
+            rewire(term, term["target"], [{"k": "assign", "place": {"l": bl, "p": []}, "rv": _agg(CF, "Break", 1, [{"k": "move", "place": {"l": ret, "p": []}}])}], TB)
+            continue
+        if term["k"] not in ("goto", "drop"):
+            continue
+        last = None
+        for s_ in blk["stmts"]:
+            if s_["k"] == "assign" and s_["place"]["l"] == ret and not s_["place"]["p"]:
+                last = s_
+        if last is None or last["rv"].get("k") != "agg" or last["rv"].get("ak") != "adt":
+            continue
+        rv = last["rv"]
+        pth, var = rv["path"], rv["variant"]
+        if pth.endswith("result::Result") and var == "Ok" or pth.endswith("option::Option") and var == "Some":
+            rewire(term, succ_of(term), [{"k": "assign", "place": {"l": bl, "p": []}, "rv": _agg(CF, "Continue", 0, list(rv["ops"]))}], TC)
+        elif pth.endswith("result::Result") and var == "Err" or pth.endswith("option::Option") and var == "None":
+            tl = tmp_local()
+            rewire(term, succ_of(term), [{"k": "assign", "place": {"l": tl, "p": []}, "rv": dict(rv)},
+                                        {"k": "assign", "place": {"l": bl, "p": []}, "rv": _agg(CF, "Break", 1, [{"k": "move", "place": {"l": tl, "p": []}}])}], TB)
 
 
 def inline_unknown(crates, known):
